@@ -228,6 +228,52 @@ def rule_h1(chk, prog, rule="H1"):
             chk.finding(rule, f.key, "into_inner", "", c.where(),
                         "the buffered stream is unwrapped in %s without first forwarding the BufReader's read-ahead in both directions "
                         "(found drain_buffers pairs %s): bytes pipelined behind the handshake are lost" % (f.path, sorted(pairs)))
+    # drain_buffers copies the read-ahead out of the BufReader but leaves it there: afterwards the drained stream must only be
+    # unwrapped (into_inner drops the buffer).  Handing the still-wrapped stream to the relay makes it read the same bytes again.
+    for f in [g for g in prog.fns.values() if g.crate == "redproxy_rs"]:
+        drains = [d for d in f.calls if re.search(r"copy::drain_buffers$", d.name or "")]
+        if not drains:
+            continue
+        drained = {}
+        for d in drains:
+            tr = f.trace(op_base(d.args[0]))
+            root = None
+            for k, info in tr:
+                if k in ("ref", "place") and len(info) >= 1 and f.local_name(info[0]):
+                    root = info[0]
+                    break
+            if root is None and f.local_name(op_base(d.args[0])):
+                root = op_base(d.args[0])
+            if root is not None:
+                drained.setdefault(root, []).append(d)
+        for root, ds_ in drained.items():
+            n += 1
+            after = set()
+            for d in ds_:
+                after |= f.reach_from([d.target] if d.target is not None else [])
+            bad = []
+            for c in f.calls:
+                if c.bb not in after or c in ds_:
+                    continue
+                for a in c.args:
+                    pl = a.get("m")
+                    if not pl or len(pl) != 1:
+                        continue
+                    l = pl[0]
+                    for _ in range(6):          # the value is moved through temporaries
+                        if l == root:
+                            break
+                        dd = f.single_def(l)
+                        if not dd or dd[1] == "term" or dd[2]["k"] != "use" or "m" not in dd[2]["a"] or len(dd[2]["a"]["m"]) != 1:
+                            break
+                        l = dd[2]["a"]["m"][0]
+                    if l == root and not re.search(r"::into_inner$", c.path or ""):
+                        bad.append(c)
+            chk.instance(rule, "%s:%s" % (f.file, f.line), "after drain_buffers the stream `%s` in %s is only unwrapped (into_inner)" % (f.local_name(root) or root, f.path), not bad)
+            for c in bad[:1]:
+                chk.finding(rule, f.key, "drained-stream-reused", f.local_name(root) or "", c.where(),
+                            "%s hands the still-buffered stream `%s` to %s after drain_buffers copied its read-ahead to the other side: the relay "
+                            "reads those bytes from the BufReader again and forwards them a second time" % (f.path, f.local_name(root) or root, short(c.path or c.name)))
     # shape of drain_buffers itself
     ds = prog.find(r"^copy::drain_buffers$", "redproxy_rs")
     if len(ds) != 1:
